@@ -192,6 +192,51 @@ def build_fixtures(root):
     return fx, cfgdir
 
 
+def job_for(root, fxs, cfgdir, lv, file, tles, cfgp, ppp, has, nm, given):
+    """worker configuration and environment of one run"""
+    flavour = "has" if has else "absent"
+    fx = fxs[flavour]
+    cfg = dict(fx)
+    cfg.update({"root": root, "lines": lv, "file": file, "tles": tles, "platform": nm, "given": given[flavour],
+                "tles_value": {"unset": None, "several": fx["tles_pattern"], "nothing": fx["tles_nothing"]}[tles]})
+    env = {k: v for k, v in os.environ.items() if k not in ("TLES", "PYORBITAL_CONFIG_PATH", "PPP_CONFIG_DIR")}
+    env["PYTHONPATH"] = common.REPO + ":" + common.VERIF
+    if cfg["tles_value"]:
+        env["TLES"] = cfg["tles_value"]
+    if cfgp != "unset":
+        env["PYORBITAL_CONFIG_PATH"] = cfgdir[cfgp]
+    if ppp == "set":
+        env["PPP_CONFIG_DIR"] = cfgdir["ppp"]
+    return cfg, env, flavour
+
+
+def given_lines():
+    g = entry("NOAA 19", SATNUM, SRC["lines"] + 1)[1:]
+    return {"has": g, "absent": g}
+
+
+def replay(ctx, rp):
+    """re-run the configurations of a replay file on the implementation and print what is observed"""
+    root = os.path.realpath(tempfile.mkdtemp(prefix="verif-c16-", dir="/var/tmp"))
+    try:
+        fxs, cfgdir = build_fixtures(root)
+        worker_path = os.path.join(root, "worker.py")
+        with open(worker_path, "w") as fh:
+            fh.write(WORKER)
+        items = rp.get("failing_inputs", []) + rp.get("broken_correspondence", [])
+        for fi in items:
+            if "tle_file" not in fi:
+                continue
+            cfg, env, flavour = job_for(root, fxs, cfgdir, fi["lines"], fi["tle_file"], fi["TLES"], fi["PYORBITAL_CONFIG_PATH"],
+                                        fi["PPP_CONFIG_DIR"], fi["platform_present"], fi.get("requested", PLATFORM), given_lines())
+            res = run_worker(worker_path, cfg, env)
+            keep = {k: res.get(k) for k in ("ok", "rev", "exn", "urlopen", "requests", "socket", "opened", "stream_consumed", "platforms_path", "marker", "ppp_marker")}
+            print(json.dumps({k: fi[k] for k in ("lines", "tle_file", "TLES", "PYORBITAL_CONFIG_PATH", "PPP_CONFIG_DIR", "platform_present")}), "->", json.dumps(keep))
+    finally:
+        shutil.rmtree(root, ignore_errors=True)
+    return 0
+
+
 LINES = ["both", "one", "none"]
 FILES = ["none", "path", "stream", "xml"]
 TLES = ["unset", "several", "nothing"]
@@ -291,7 +336,7 @@ def run(ctx):
         pkg_platforms = os.path.realpath(os.path.join(common.REPO, "pyorbital", "etc", "platforms.txt"))
         if not os.path.isfile(pkg_platforms):
             ctx.corr_fail("packaged platforms.txt", {"missing": pkg_platforms})
-        given = {"has": entry("NOAA 19", SATNUM, SRC["lines"] + 1)[1:], "absent": entry("NOAA 19", SATNUM, SRC["lines"] + 1)[1:]}
+        given = given_lines()
         jobs = []
         idx = 0
         for l, f, t, p, q, has in itertools.product(range(3), range(4), range(3), range(3), range(2), (1, 0)):
@@ -300,19 +345,7 @@ def run(ctx):
             names = [PLATFORM] if ctx.quick else [PLATFORM, " noaa-19 "]
             for lv in variants:
                 for nm in names:
-                    flavour = "has" if has else "absent"
-                    fx = fxs[flavour]
-                    cfg = dict(fx)
-                    cfg.update({"root": root, "lines": lv, "file": FILES[f], "tles": TLES[t], "platform": nm, "given": given[flavour],
-                                "tles_value": {"unset": None, "several": fx["tles_pattern"], "nothing": fx["tles_nothing"]}[TLES[t]]})
-                    env = {k: v for k, v in os.environ.items() if k not in ("TLES", "PYORBITAL_CONFIG_PATH", "PPP_CONFIG_DIR")}
-                    env["PYTHONPATH"] = common.REPO + ":" + common.VERIF
-                    if cfg["tles_value"]:
-                        env["TLES"] = cfg["tles_value"]
-                    if CFGP[p] != "unset":
-                        env["PYORBITAL_CONFIG_PATH"] = cfgdir[CFGP[p]]
-                    if PPP[q] == "set":
-                        env["PPP_CONFIG_DIR"] = cfgdir["ppp"]
+                    cfg, env, flavour = job_for(root, fxs, cfgdir, lv, FILES[f], TLES[t], CFGP[p], PPP[q], has, nm, given)
                     jobs.append(((l, f, t, p, q, has), lv, nm, cfg, env, flavour))
         with ThreadPoolExecutor(max_workers=min(16, os.cpu_count() or 4)) as ex:
             results = list(ex.map(lambda j: run_worker(worker_path, j[3], j[4]), jobs))
